@@ -924,6 +924,7 @@ func (gqm *GroupQuotaManager) OnPodUpdate(newQuotaName, oldQuotaName string, new
 	gqm.hierarchyUpdateLock.RLock()
 	defer gqm.hierarchyUpdateLock.RUnlock()
 
+	oldQuotaName = gqm.getQuotaNameHoldingPodNoLock(oldQuotaName, oldPod)
 	if oldQuotaName == newQuotaName {
 		quotaInfo := gqm.getQuotaInfoByNameNoLock(newQuotaName)
 		if quotaInfo == nil {
@@ -993,6 +994,7 @@ func (gqm *GroupQuotaManager) OnPodDelete(quotaName string, pod *v1.Pod) {
 	gqm.hierarchyUpdateLock.RLock()
 	defer gqm.hierarchyUpdateLock.RUnlock()
 
+	quotaName = gqm.getQuotaNameHoldingPodNoLock(quotaName, pod)
 	quotaInfo := gqm.getQuotaInfoByNameNoLock(quotaName)
 	if quotaInfo == nil || !quotaInfo.IsPodExist(pod) {
 		return
@@ -1043,6 +1045,21 @@ func (gqm *GroupQuotaManager) UnreservePod(quotaName string, p *v1.Pod) {
 
 	gqm.updatePodUsedNoLock(quotaName, p, nil)
 	gqm.updatePodIsAssignedNoLock(quotaName, p, false)
+}
+
+// getQuotaNameHoldingPodNoLock returns the DefaultQuotaName if the pod is not in the given quota but still in the
+// DefaultQuotaGroup, which means the quota was created after the pod and the pod has not been migrated yet.
+func (gqm *GroupQuotaManager) getQuotaNameHoldingPodNoLock(quotaName string, pod *v1.Pod) string {
+	if pod == nil || quotaName == extension.DefaultQuotaName {
+		return quotaName
+	}
+	if quotaInfo := gqm.getQuotaInfoByNameNoLock(quotaName); quotaInfo != nil && quotaInfo.IsPodExist(pod) {
+		return quotaName
+	}
+	if defaultQuotaInfo := gqm.getQuotaInfoByNameNoLock(extension.DefaultQuotaName); defaultQuotaInfo != nil && defaultQuotaInfo.IsPodExist(pod) {
+		return extension.DefaultQuotaName
+	}
+	return quotaName
 }
 
 func getPodName(oldPod, newPod *v1.Pod) string {
